@@ -1,14 +1,23 @@
 (* Extraction of the executable model and the verified checkers to OCaml.
    Only ExtrOcamlBasic (bool, option, unit, prod, list, sumbool, sumor mapped to OCaml's);
-   nat, string, ascii stay the extracted inductives.  No Extract Constant. *)
+   nat, Z, positive, string, ascii stay the extracted inductives.  No Extract Constant. *)
 From Coq Require Extraction ExtrOcamlBasic.
-From PS Require Import Base Str Bag RegAccess Sim Diag.
+From Coq Require Import ZArith.
+From PS Require Import Base Str Bag RegAccess Sim Program Isa Graph Loader Cli Diag QueueSpec LoaderSpec.
 Extraction Language OCaml.
 Set Extraction Optimize.
 Extraction "../ocaml/model.ml"
-  Str.lower Str.upper Str.ic_eqb Str.ic_ltb Str.ic_contains Str.ic_hash_key
+  Str.lower Str.upper Str.ic_eqb Str.ic_ltb Str.ic_contains Str.ic_hash_key Str.ic_str
   Bag.bag_eqb Bag.bag_len Bag.bag_repr Bag.canon_record Bag.bag_items
   RegAccess.build_queue RegAccess.can_access RegAccess.dequeue RegAccess.qb_append
   Sim.simulate_default Sim.run_cycle Sim.cycle_bound Sim.build_acc_plan
-  Diag.wf_procb Diag.C01_order_checkb Diag.C01_replay_checkb Diag.C02_checkb Diag.C03_checkb Diag.C04_checkb
-  Diag.C05_checkb Diag.C06_checkb Diag.C07_checkb Diag.C08_checkb.
+  Program.read_program Program.code_err_msg Program.strip
+  Isa.load_isa Isa.get_abilities Isa.compile_program
+  Loader.load_proc_desc Loader.make_desc
+  Cli.sim_rows Cli.print_table
+  Diag.wf_procb Diag.wf_progb Diag.C01_order_checkb Diag.C01_replay_checkb Diag.C02_checkb Diag.C03_checkb
+  Diag.C04_checkb Diag.C05_checkb Diag.C06_checkb Diag.C07_checkb Diag.C08_checkb
+  QueueSpec.a_init QueueSpec.a_can_access QueueSpec.a_dequeue QueueSpec.a_empty QueueSpec.abs_queue
+  LoaderSpec.C09_checkb LoaderSpec.C10_checkb LoaderSpec.C11_error_ok LoaderSpec.C11_accept_ok
+  LoaderSpec.C12_order_checkb LoaderSpec.C12_classify_checkb LoaderSpec.C12_parts_checkb
+  BinInt.Z.of_nat BinInt.Z.to_nat BinInt.Z.opp.
